@@ -315,7 +315,8 @@ Definition update_peer (g : global) (a : ipaddr) (u : upd) : global :=
       if negb (Bool.eqb (u_rs_client u) (pe_rs_client p)) || negb (Bool.eqb (u_rr_client u) (rr_client (pe_rr p)))
       then g
       else
-        let la := if u_local_asn u =? 0 then gl_asn g else u_local_asn u in
+        let la0 := confed_local_asn (gl_confed g) (gl_asn g) (u_asn u) (u_local_asn u) in
+        let la := if la0 =? 0 then gl_asn g else la0 in
         let hold := if u_hold u =? 0 then DEFAULT_HOLD_TIME else u_hold u in
         let caps := build_local_cap (is_v6 a) la [] None None in
         let teardown :=
